@@ -63,6 +63,27 @@ def above(inner, sib):
     return out
 
 
+def carriers(t):
+    """a division that must survive (by zero, by a variable) BELOW another operator, and every operator above that:
+    `0 * abs{x / 0}`, `(min{x / y, y}) and 0`, ... - the erasing rewrites look at their operands, so the division is
+    put one and two levels below the operand they look at"""
+    x, y = ['var', 'x'], ['var', 'y']
+    divs = [['/', x, N(0.0)], ['/', x, y], ['/', N(1.0), x], ['/', N(0.0), N(0.0)]]
+
+    def wraps(d):
+        return [['neg', d], ['abs', d], ['min', [d, y]], ['max', [y, d]], ['*', d, y], ['*', N(2.0), d], ['+', d, N(1.0)],
+                ['-', N(1.0), d], ['-', d, d], ['not', d], ['and', [d, x]], ['or', [x, d]]]
+    out = []
+    for d in divs:
+        for w in wraps(d):
+            out += above(w, [x, N(0.0), N(1.0)])
+    for d in divs[:2] if t == 'quick' else divs:
+        for w in wraps(d):
+            for w2 in wraps(w):
+                out += above(w2, [N(0.0), N(1.0)])
+    return out
+
+
 def family_a(t, sd):
     L = leaves(0 if t == 'quick' else 1)
     d1 = depth1(L)
@@ -71,6 +92,7 @@ def family_a(t, sd):
     inner = d1 if t == 'thorough' else [e for i, e in enumerate(d1) if inner_keep(e)]
     for e in inner:
         trees += above(e, sib)
+    trees += carriers(t)
     if t == 'thorough':
         g = gen.RandGen(1000 + sd, consts=[0, 1, 2, -1, 0.5, 3], illtyped=0.3)
         vs = [('x', gen.D('Boolean')), ('y', gen.D('Real', 0, 1))]
@@ -457,7 +479,7 @@ def main(prop='C10'):
             'must_fail_twins': {'tried': tw[0], 'detected': tw[1]},
             'samples': [items[i]['tree'] for i in range(0, len(items), max(1, len(items) // 5))][:5] + [itb[0]['texts'][:3]] if itb else [],
             'exhaustive': False,
-            'family': '(a) every tree of depth<=1 over {x,y,0,1,2,-0.0,0.5}, every operator (incl. binary-spelled logic) above a depth-1 tree with siblings {x,0,1}; (b) scaled-row models x 8 spellings of the coefficient',
+            'family': '(a) every tree of depth<=1 over {x,y,0,1,2,-0.0,0.5}, every operator (incl. binary-spelled logic) above a depth-1 tree with siblings {x,0,1}; every operator above a division (x/0, x/y, 1/x, 0/0) wrapped once or twice in neg, abs, min, max, *, +, -, not, and, or; (b) scaled-row models x 8 spellings of the coefficient',
             'functions_encoded': ['Exp::simplify', 'Exp::flatten', 'RoocParser::parse_and_transform + Linearizer::linearize (b)'],
             'solver': 'z3 %s (NRA for variable denominators)' % z3.get_version_string(), 'driver_build_s': round(build_s, 1), 'check_s': round(time.time() - t0, 1),
             'outside': ['trees deeper than the family'],
